@@ -1,8 +1,10 @@
 import Prom.Props.C01
+import Std.Data.String.ToInt
 /-
 C11 — Gauge operations are atomic. Same step machine as C01 (`Conc.aEv` / `Conc.aStep`), with `set`,
 `add`, `sub`, `inc`, `dec`; `sub d` on a float gauge is `add (-d)` through the same compare-exchange
-loop, on an integer gauge one `fetch_sub`.
+loop, on an integer gauge one `fetch_sub` (or a compare-exchange loop with wrapping subtraction); a `set` is
+one store or one swap.
 -/
 namespace Prom.C11
 open Prom Prom.Conc Prom.C01
@@ -38,12 +40,14 @@ theorem gauge_real_time_order {float : Bool} {prog : List (List String)} {s s' :
     (hxt : x.tid = t ∧ x.idx = i) (hyt : y.tid = t' ∧ y.idx = i') : p < q :=
   real_time_commit_order h h' hth hth' hret hnot hx hy hxt hyt
 
-/-- **set_not_torn** — a `set` is one store of one 64-bit pattern: the accepted event is a single
-    store whose operand is the whole new value, the cell holds exactly that value afterwards, and the
-    call is complete with that one step -/
+/-- **set_not_torn** — a `set` is one atomic write of one 64-bit pattern: the accepted event is a single
+    store, or a single swap (`set` written as `swap` with the result ignored; the swap read exactly the
+    current value of the cell), whose operand is the whole new value; the cell holds exactly that value
+    afterwards, and the call is complete with that one step. (Before the machine accepted the swap the first
+    conjunct read `e.k = "S"`.) -/
 theorem set_not_torn {float : Bool} {mem : UInt64} {op : String} {e : Ev} {mem' : UInt64} {nx : APc ⊕ String}
     (hn : opName op = "set") (h : aEv float mem op .start e = .ok (mem', nx)) :
-    e.k = "S" ∧ mem' = e.a ∧ nx = .inr "" := by
+    (e.k = "S" ∨ (e.k = "W" ∧ e.res = mem)) ∧ mem' = e.a ∧ nx = .inr "" := by
   unfold aEv at h
   simp only at h
   split at h
@@ -56,9 +60,88 @@ theorem set_not_torn {float : Bool} {mem : UInt64} {op : String} {e : Ev} {mem' 
     simp only [h1, h2, Bool.false_eq_true, if_false, if_true] at h
     rw [guard_ok] at h
     obtain ⟨hg, h⟩ := h
-    simp only [Bool.and_eq_true, beq_iff_eq] at hg
+    simp only [Bool.and_eq_true, Bool.or_eq_true, beq_iff_eq] at hg
     cases h
     exact ⟨hg.1.1, hg.2.symm, rfl⟩
+
+/-- a `reset` likewise: one store or one swap (which read the current value) of the whole zero pattern -/
+theorem reset_not_torn {float : Bool} {mem : UInt64} {op : String} {e : Ev} {mem' : UInt64} {nx : APc ⊕ String}
+    (hn : opName op = "reset") (h : aEv float mem op .start e = .ok (mem', nx)) :
+    (e.k = "S" ∨ (e.k = "W" ∧ e.res = mem)) ∧ mem' = e.a ∧ nx = .inr "" := by
+  unfold aEv at h
+  simp only at h
+  split at h
+  · cases h
+  · unfold aEvStart at h
+    simp only at h
+    rw [hn] at h
+    have h1 : ("reset" == "get") = false := by decide
+    have h2 : ("reset" == "set" || "reset" == "reset") = true := by decide
+    simp only [h1, h2, Bool.false_eq_true, if_false, if_true] at h
+    rw [guard_ok] at h
+    obtain ⟨hg, h⟩ := h
+    simp only [Bool.and_eq_true, Bool.or_eq_true, beq_iff_eq] at hg
+    cases h
+    exact ⟨hg.1.1, hg.2.symm, rfl⟩
+
+theorem splitOn_set5 : "set:5".splitOn ":" = ["set", "5"] := by split_on_lit
+theorem opName_set5 : opName "set:5" = "set" := by simp [opName, splitOn_set5]
+theorem opArg_set5 : opArg "set:5" = "5" := by simp [opArg, splitOn_set5]
+/-- `String.toInt?` does not reduce; it goes through `Nat.toNat?_repr` -/
+theorem parseIntArg_5 : parseIntArg "5" = 5 := by
+  have r5 : Nat.repr 5 = "5" := by decide +kernel
+  have hn : "5".toNat? = some 5 := by rw [← r5]; exact Nat.toNat?_repr 5
+  have hi : "5".toInt? = some 5 := String.toInt?_eq_some_iff.2 (Or.inl ⟨5, hn, rfl⟩)
+  simp [parseIntArg, hi]
+theorem u64OfInt_five : u64OfInt 5 = 5 := by decide +kernel
+theorem hexStr_five : hexStr 5 = "5" := by decide +kernel
+
+/-- an integer gauge. Thread 0: `inc` (one `fetch_add`), then `set(5)` written as a SWAP (operand `5`, it
+    reads the old value `1`, which the caller ignores), then `reset` written as a swap (operand `0`, reads
+    `5`); thread 1 `get`s between the two swaps and reads `5` -/
+def setSwapTrace : List Item :=
+  [.call 0 "0" "inc", .ev ⟨0, "A", "v0", "Relaxed", 1, 0, 0, true⟩, .ret 0 "0" "",
+   .call 0 "1" "set:5", .call 1 "0" "get",
+   .ev ⟨0, "W", "v0", "Relaxed", 5, 0, 1, true⟩, .ret 0 "1" "",
+   .ev ⟨1, "L", "v0", "Relaxed", 0, 0, 5, true⟩, .ret 1 "0" "5",
+   .call 0 "2" "reset", .ev ⟨0, "W", "v0", "SeqCst", 0, 0, 5, true⟩, .ret 0 "2" ""]
+
+/-- **set_as_swap_accepted** — `set` / `reset` written as a `swap` whose result is ignored is accepted:
+    `setSwapTrace` is an accepted run of the integer gauge machine; the commit log is
+    `inc, set:5, get (= 5), reset`, each call committed exactly once at its one step, and the cell ends at `0`.
+    The plain store stays accepted (`reset_allows_decrease_run`). -/
+theorem set_as_swap_accepted :
+    ∃ s, runItems aItem (aInit false false [["inc", "set:5", "reset"], ["get"]]) setSwapTrace 0 = .ok s ∧
+      AReach (aInit false false [["inc", "set:5", "reset"], ["get"]]) s ∧
+      s.lin = [⟨0, 0, "inc", ""⟩, ⟨0, 1, "set:5", ""⟩, ⟨1, 0, "get", "5"⟩, ⟨0, 2, "reset", ""⟩] ∧
+      s.mem = 0 ∧ allDone s.ths = true := by
+  have r0 : Nat.repr 0 = "0" := by decide +kernel
+  have r1 : Nat.repr 1 = "1" := by decide +kernel
+  have r2 : Nat.repr 2 = "2" := by decide +kernel
+  have og : ordGe "Relaxed" "Relaxed" = true := by decide +kernel
+  have os : ordGe "SeqCst" "Relaxed" = true := by decide +kernel
+  have h : ∃ s, runItems aItem (aInit false false [["inc", "set:5", "reset"], ["get"]]) setSwapTrace 0 = .ok s ∧
+      s.lin = [⟨0, 0, "inc", ""⟩, ⟨0, 1, "set:5", ""⟩, ⟨1, 0, "get", "5"⟩, ⟨0, 2, "reset", ""⟩] ∧
+      s.mem = 0 ∧ allDone s.ths = true := by
+    simp [runItems, setSwapTrace, aItem, aStep, aEv, aEvStart, Conc.guard, aInit, openCall, closeCall, r0, r1, r2,
+      opName_inc, opName_get, opName_reset, opName_set5, opArg_set5, parseIntArg_5, u64OfInt_zero, u64OfInt_one,
+      u64OfInt_five, og, os, isSubOp, intDelta, hexStr_five, allDone]
+  obtain ⟨s, hr, hl, hm, hd⟩ := h
+  exact ⟨s, hr, runItems_reach hr, hl, hm, hd⟩
+
+/-- the swap is checked: `setSwapTrace` with the first swap reporting a wrong old value (`0`; the cell holds
+    `1`) is rejected at that event (item 5) -/
+theorem set_as_swap_wrong_old_value_rejected :
+    ∃ m, runItems aItem (aInit false false [["inc", "set:5", "reset"], ["get"]])
+        (setSwapTrace.take 5 ++ [.ev ⟨0, "W", "v0", "Relaxed", 5, 0, 0, true⟩]) 0 = .error m ∧ m.startsWith "diverge@5: set:" = true := by
+  have r0 : Nat.repr 0 = "0" := by decide +kernel
+  have r1 : Nat.repr 1 = "1" := by decide +kernel
+  have r5 : Nat.repr 5 = "5" := by decide +kernel
+  have og : ordGe "Relaxed" "Relaxed" = true := by decide +kernel
+  simp [runItems, setSwapTrace, aItem, aStep, aEv, aEvStart, Conc.guard, aInit, openCall, closeCall, r0, r1, r5,
+    opName_inc, opName_get, opName_set5, opArg_set5, parseIntArg_5, u64OfInt_one,
+    u64OfInt_five, og, isSubOp, intDelta, hexStr_five, hexStr_one]
+  decide +kernel
 
 /-- **sub_undoes_add (integers)** — on the integer flavours the cell is updated by wrapping
     `fetch_add` / `fetch_sub`, and `x + d - d = x` for every 64-bit value: no clamping, no second
